@@ -160,6 +160,15 @@ def deleteshape_shared(prev, cur):
     return False
 
 
+def known_or_violation(rep, kid, detail, replay):
+    """a recorded defect: reported as KNOWN-FINDING while its entry has status "known"; once the
+    entry is "fixed" the same input class coming back is a violation"""
+    if any(k["id"] == kid for k in rep.known):
+        rep.known_finding(kid, detail)
+    else:
+        rep.violation("the repaired defect %s is back: %s" % (kid, detail[:200]), replay)
+
+
 KNOWN_BOOL = "C11-invalid-bool-normalised-by-copy"
 KNOWN_UAF = "C11-dangling-geom-cache"
 KNOWN_SHARED = "C11-deleteshape-shared-data"
@@ -349,16 +358,18 @@ def run(tier, seed, replay=None):
             broken = any(len(mo) >= 3 and "0" in mo[2].replace("link=", "") for mo in mops)
             dangling = any(",D," in x for mo in mops for x in mo[:2]) or any(",D," in x for o in ops for x in o[1:3])
             uaf = ("heap-use-after-free" in err and re.search(r"~Ni\w*Data\(\)", err) is not None) or crash.get("flavour") == "plain"
-            if uaf and (broken or dangling):
+            # which operation left the dangling pointer: the first completed one after which a dump shows
+            # one, else the operation the abort happened in
+            req = [o for o in kv.get("ops", "").split(";") if o]
+            culprit = next((o[0] for o in ops if any(",D," in x for x in o[1:3])), None)
+            if culprit is None and len(ops) < len(req):
+                culprit = req[len(ops)]
+                broken = broken or culprit[0] in "GK"
+            if uaf and (broken or dangling) and culprit:
                 resolved = [o[0] for o in ops]
-                shared = kv.get("pre") == "share" and any(o.startswith("K") for o in kv.get("ops", "").split(";"))
-                rep.known_finding(KNOWN_SHARED if shared else KNOWN_UAF, "%s (completed ops %s)" % (c, ",".join(resolved)))
-                stats["asan_aborts_known"] += 1
-                nontriv.add(c)
-                continue
-            # DeleteShape of a shape sharing its data block: the crash happens inside the opaque op
-            if uaf and kv.get("pre") == "share" and any(o.startswith("K") for o in kv.get("ops", "").split(";")):
-                rep.known_finding(KNOWN_SHARED, c)
+                shared = culprit.startswith("K")
+                known_or_violation(rep, KNOWN_SHARED if shared else KNOWN_UAF, "%s (completed ops %s, culprit %s)" % (c, ",".join(resolved), culprit),
+                                   {"case": c, "family": FAMILY, "crash": {"rc": crash.get("rc"), "stderr": err[-2000:]}})
                 stats["asan_aborts_known"] += 1
                 nontriv.add(c)
                 continue
@@ -419,7 +430,7 @@ def run(tier, seed, replay=None):
                 if deletes_cached_data(prev, o[0]):
                     rep.known_finding(KNOWN_UAF, "%s: %s leaves %s" % (c, o[0], le[0]))
                 elif o[0].startswith("K") and deleteshape_shared(prev, parse_dump(o[1 + side])):
-                    rep.known_finding(KNOWN_SHARED, "%s: %s leaves %s" % (c, o[0], le[0]))
+                    known_or_violation(rep, KNOWN_SHARED, "%s: %s leaves %s" % (c, o[0], le[0]), {"case": c, "family": FAMILY, "errors": le[:3]})
                 else:
                     errs += ["after %s: %s" % (o[0], e) for e in le[:2]]
                 break
